@@ -31,6 +31,8 @@ func runC13(p *Prog, r *Report) {
 	c13R1(p, r)
 	c13R2(p, r)
 	c13R3(p, r)
+	indexGetTotalRule(p, r, "C13.R3b")
+	patternsUnmodifiedRule(p, r, "C13.R2g")
 	c13R4(p, r)
 	c13R5(p, r)
 }
@@ -675,6 +677,9 @@ var auditedErrDrops = map[string]string{
 // auditedDropFacts: sub-facts re-verified on every run for audited drops whose
 // justification depends on the shape of the dropping function.
 var auditedDropFacts = map[string]func(p *Prog) string{
+	// "cannot overlap: callExisting found no method and no context error immediately before" holds only if
+	// Index.Get answers `nothing` exactly for unknown signatures
+	"generator.(*generator).createSubMethod|method.(*Index).Register": indexGetTotalFact,
 	"generator.(*generator).hasDeclared|method.(*Index).Get": func(p *Prog) string {
 		fi := p.Func("generator.(*generator).hasDeclared")
 		if fi == nil {
